@@ -17,7 +17,7 @@ def run(tier, seed):
     bc, bmeta, nc, nmeta, kc, kmeta, bad = [], [], [], [], [], [], []
     for it in range(n):
         nd = rng.choice([1, 2, 3, 6, 9, 30]); mass = np.array([10 ** rng.uniform(2, 5) for _ in range(nd)])
-        T = 10 ** rng.uniform(0, 3.5); kt = boltzmann * T; sd = rng.randrange(2 ** 31); scale = rng.random() < 0.6
+        T = 10 ** rng.uniform(0, 3.5) if rng.random() < 0.7 else 10 ** rng.uniform(-5, 0); kt = boltzmann * T; sd = rng.randrange(2 ** 31); scale = rng.random() < 0.6
         # math.boltzmann_velocities
         twin = np.random.default_rng(sd)
         sig = np.sqrt(kt * mass); praw = twin.normal(0.0, sig)
@@ -47,16 +47,31 @@ def run(tier, seed):
                     bad.append(dict(failed="TrajGenBoltzmann: kinetic energy per degree of freedom is exactly kT/2 with scaling", case=info))
         if len(set(keys)) != len(keys) or len(keys) != ns:
             bad.append(dict(failed="every yielded sample carries its own distinct seed sequence", case=dict(keys=keys)))
+        # the same generator collected into a list before use (as a caller that builds all trajectories first would)
+        coll = list(TrajGenBoltzmann(np.zeros(nd), mass, T, 0, scale=scale, seed=rng.randrange(2 ** 31), momentum_seed=ms)(ns))
+        ckeys = [tuple(o[3]["seed_sequence"].spawn_key) for o in coll]
+        if len(set(ckeys)) != ns or len(set(id(o[3]) for o in coll)) != ns or (ns > 1 and any(o[1] is coll[0][1] for o in coll[1:])):
+            bad.append(dict(failed="TrajGenBoltzmann: every yielded sample (collected before use) carries its own distinct seed sequence and its own momentum array", case=dict(keys=ckeys, nsamples=ns)))
         # TrajGenNormal
         nd2 = rng.choice([1, 1, 2]); sigma = rng.uniform(0.2, 5.0); st_ = rng.randrange(2 ** 31); ns = rng.randint(1, 12)
-        pos = np.array([rng.uniform(-5, 5) for _ in range(nd2)]); mom = np.array([rng.choice([0.3, 1.0, 5.0, 20.0, 0.0, -0.5, -3.0]) * sigma ** -1 * rng.uniform(0.2, 3) for _ in range(nd2)])
+        sig_kind = rng.choice(["float", "float", "int", "np.int64", "np.float32"])
+        if sig_kind == "int": sigma = rng.randint(1, 6)
+        elif sig_kind == "np.int64": sigma = np.int64(rng.randint(1, 6))
+        elif sig_kind == "np.float32": sigma = np.float32(rng.choice([0.5, 1.0, 2.0, 4.0]))
+        res.count("normal-sigma-type/" + sig_kind)
+        pos = np.array([rng.uniform(-5, 5) for _ in range(nd2)]); mom = np.array([rng.choice([0.3, 1.0, 5.0, 20.0, 0.0, -0.5, -3.0]) * float(sigma) ** -1 * rng.uniform(0.2, 3) for _ in range(nd2)])
+        if rng.random() < 0.2:
+            pos = np.round(pos).astype(int); mom = np.round(mom * 3).astype(int)      # integer-typed centres are legal input
+            res.count("normal-int-centres")
         g = TrajGenNormal(pos, mom, 0, sigma, seed=rng.randrange(2 ** 31), seed_traj=st_)
         twin = np.random.default_rng(st_)
         draws = []
         for i in range(ns):
-            x = twin.normal(pos, 0.5 * sigma); k = twin.normal(mom, 1.0 / sigma); draws.append((x, k))
+            x = twin.normal(pos, 0.5 * float(sigma)); k = twin.normal(mom, 1.0 / float(sigma)); draws.append((x, k))
         ys = [(tuple(opt["seed_sequence"].spawn_key), np.array(x), np.array(k)) for (x, k, s0, opt) in g(ns)]
-        info = dict(kind="TrajGenNormal", position=pos.tolist(), momentum=mom.tolist(), sigma=sigma, seed_traj=st_, nsamples=ns)
+        info = dict(kind="TrajGenNormal", position=pos.tolist(), momentum=mom.tolist(), sigma=float(sigma), sigma_type=sig_kind, seed_traj=st_, nsamples=ns)
+        if abs(float(g.position_deviation) - 0.5 * float(sigma)) > 1e-15 * float(sigma) or abs(float(g.momentum_deviation) - 1.0 / float(sigma)) > 1e-15 / float(sigma):
+            bad.append(dict(failed="the normal generator draws with standard deviations sigma/2 and 1/sigma (got %r and %r for sigma=%r of type %s)" % (float(g.position_deviation), float(g.momentum_deviation), float(sigma), sig_kind), case=info))
         if any(len(key) != 1 for key, _, _ in ys):
             bad.append(dict(failed="seed keys are children of the generator's sequence", case=info)); continue
         nc.append(tup(fl(sigma), fl(g.position_deviation), fl(g.momentum_deviation), lst([tup(fls(x), fls(k)) for x, k in draws]),
@@ -71,6 +86,8 @@ def run(tier, seed):
         g = TrajGenConst([1.0], [2.0], 0, seed=sd)
         out1 = list(g(nsamp)); out2 = list(g(rng.randint(1, 4)))
         keys1 = [list(o[3]["seed_sequence"].spawn_key) for o in out1]; keys2 = [list(o[3]["seed_sequence"].spawn_key) for o in out2]
+        if len(set(tuple(k) for k in keys1)) != nsamp or len(set(id(o[3]) for o in out1)) != nsamp:
+            bad.append(dict(failed="the constant generator: every yielded sample (collected before use) carries its own distinct seed sequence (keys %r)" % (keys1,), case=dict(n=nsamp, seed=sd)))
         if len(out1) != nsamp or any(o[:3] != out1[0][:3] for o in out1):
             bad.append(dict(failed="the constant generator yields exactly the requested number of identical initial conditions", case=dict(n=nsamp)))
         kc.append(tup(lst([]), lst([nat(nsamp), nat(len(out2))]), lst([lst([lst([nat(x) for x in k]) for k in keys1]), lst([lst([nat(x) for x in k]) for k in keys2])])))
@@ -95,6 +112,6 @@ def run(tier, seed):
         res.violation("implementation differs from Model/Generators.v / Model/Rng.v (theorems no longer cover the code)",
                       dict(kind="correspondence", correspondence="Run/R19: boltz_scale/boltz_sigma/normal_gen/spawn vs mudslide.math.boltzmann_velocities and batch.TrajGen*", failing_inputs=corr, no_failing_input_found=True))
     return finish(res, thm,
-                  rule="random mass vectors (1..30 dof), temperatures 1..3000 K, seeds; boltzmann_velocities and TrajGenBoltzmann (scaled and raw) with the raw normal draw taken from a twin generator; "
+                  rule="random mass vectors (1..30 dof), temperatures 1e-5..3000 K, seeds; integer- and float32-typed widths and integer centres; samples consumed one by one and collected into a list first; boltzmann_velocities and TrajGenBoltzmann (scaled and raw) with the raw normal draw taken from a twin generator; "
                        "TrajGenNormal draws replayed from a twin generator (widths, filter, order, seed keys); TrajGenConst counts and spawn keys over two successive calls; non-trivial = distinct case",
                   assumptions=["numpy Generator.normal with the same seed reproduces the implementation's raw draws (twin generator)", "normality/independence of rng.normal is numpy's contract"])
